@@ -203,3 +203,11 @@ func Verif_C08_Q4_VerdictAfterRotation() {
 	}
 	vnd.Observe("q4", uint64(i), uint64(x.bl.released-releasedAtGet))
 }
+
+// Verif_C08_Q6_DeduplicatingUploadRechecks: a hierarchical upload of an object that
+// already exists under another name copies nothing; it consumes the client's data with
+// the lock released and then points its own lookup entry at the existing copy. A
+// quarantine (or rotation) in between removes that copy from the index, so the entry
+// written must be the canonical entry AS RE-READ under the lock (the scenario stub
+// answers every lookup arbitrarily, including "gone"), never the location seen before.
+func Verif_C08_Q6_DeduplicatingUploadRechecks() { verifScenarioHierPut() }
